@@ -278,6 +278,8 @@ impl<F: Function> Worker<'_, F> {
         depth: usize,
         tile: Tile<3>,
     ) -> bool {
+        #[cfg(feature = "verif-hooks")]
+        fidget_core::verif::point(fidget_core::verif::Point::SubTile);
         // Early exit if every single pixel is filled
         let tile_size = self.tile_sizes[depth];
         let fill_z = (tile.corner[2] + tile_size + 1).try_into().unwrap();
